@@ -296,6 +296,10 @@ def build_cases(tier="quick"):
     for c in c20.main_cases():
         if c.unit.endswith("__main__.run_tests"):
             ref.append(Case(f"{PROP}/__main__.run_tests#per-test-configuration", c.case, c.harness, replay=replay_script("annotation_scope.py", "two tests of one contract, only the first carries a @custom:halmos annotation"), sources=c.sources))
+    # every length combination inside the printed bounds is explored only if sibling paths do not share their size tables
+    from contracts import c02
+
+    ref += [Case(f"{PROP}/sevm.Path.branch#size-tables-owned", c.case, c.harness, replay=c.replay, sources=c.sources) for c in c02.path_cases() if "Path.branch" in c.unit]
     return panic_cases() + fail_flag_cases() + handler_cases() + setup_cases() + ref
 
 
